@@ -55,6 +55,15 @@ fn snap_tree(i: usize) -> Entry {
             t.insert("emptydir", Entry::dir(T0 + 3));
         }
         _ => {
+            // two unrelated files which claim a link count of 2 and share an inode number while no
+            // device id was recorded (0): they are not hardlinks of each other
+            for (n, seed) in [("u1", 11u64), ("u2", 12)] {
+                let mut u = Entry::file(lcg(seed, 80), T0 + 5);
+                u.meta.inode = 99;
+                u.meta.dev = 0;
+                u.meta.links = 2;
+                t.insert(n, u);
+            }
             t.insert("a", Entry::file(lcg(9, 64), T0 + 1));
             t.insert("b", Entry::symlink(b"/nonexistent/target".to_vec(), T0 + 2));
             t.insert("c/d/e/f", Entry::file(lcg(10, 10), T0 + 3));
@@ -122,7 +131,8 @@ pub fn materialise(root: &Path, t: &Entry) {
         match &e.ent {
             Ent::Dir(_) => fs::create_dir_all(&path).unwrap(),
             Ent::File(d) => {
-                if e.meta.links > 1 {
+                // (hardlink partners are identified by device and inode; device 0 = not recorded)
+                if e.meta.links > 1 && e.meta.dev != 0 && e.meta.inode != 0 {
                     if let Some(first) = links.get(&(e.meta.dev, e.meta.inode)) {
                         fs::hard_link(first, &path).unwrap();
                         continue;
@@ -440,7 +450,7 @@ fn run_case(pre: &Prepared, c: &Case, sb: &Path) -> Result<(), (String, String)>
         let rel = String::from_utf8_lossy(p).to_string();
         // a file (or a hardlink partner of it) left with other bytes but the snapshot's size and
         // mtime is only re-read with verify-existing: the statement's stated exception
-        let group: Vec<String> = if e.meta.links > 1 {
+        let group: Vec<String> = if e.meta.links > 1 && e.meta.dev != 0 && e.meta.inode != 0 {
             all.iter().filter(|(_, o)| o.meta.links > 1 && o.meta.inode == e.meta.inode && o.meta.dev == e.meta.dev).map(|(q, _)| String::from_utf8_lossy(q).to_string()).collect()
         } else {
             vec![rel.clone()]
